@@ -293,10 +293,32 @@ def conversion_ranges(prog, chk, rid):
             rets = [i for i, n in enumerate(f.nodes) if n["k"] == "ReturnStmt" and n["c"]]
             for r in rets:
                 # every call on the value path of the returned expression
-                x = f.strip(f.nodes[r]["c"][0])
-                while f.nodes[x]["k"] in ("CStyleCastExpr", "CXXStaticCastExpr", "CXXFunctionalCastExpr", "ParenExpr", "ImplicitCastExpr") and f.nodes[x]["c"]:
-                    x = f.strip(f.nodes[x]["c"][0])
+                x = f.nodes[r]["c"][0]
+                narrow = []      # intermediate types on the value path (casts, named locals) that cannot hold every value of the result type
+                defs_ = q.local_defs(f)
+                for _hop in range(6):
+                    while f.nodes[x]["k"] in ("CStyleCastExpr", "CXXStaticCastExpr", "CXXFunctionalCastExpr", "ParenExpr", "ImplicitCastExpr") and f.nodes[x]["c"]:
+                        T_ = INT_T.get(re.sub(r"^const ", "", f.nodes[x].get("t") or ""))
+                        if f.nodes[x]["k"] != "ParenExpr" and T_ is not None and T_[1] < R[1]:
+                            narrow.append(f.nodes[x].get("t"))
+                        x = f.nodes[x]["c"][0]
+                    nx_ = f.nodes[x]
+                    # a local that names the parser result: `const unsigned long parsed = strtoul(...); return (uint)parsed;`
+                    if nx_["k"] == "DeclRefExpr" and nx_["ref"].get("dk") == "local":
+                        init_ = q.single_def(f, nx_["ref"]["id"], defs_)
+                        if init_ is None:
+                            break
+                        T_ = INT_T.get(re.sub(r"^const ", "", nx_["ref"].get("t") or ""))
+                        if T_ is None or T_[1] < R[1]:      # conversions are modulo 2^width: only a narrower stop-over loses anything
+                            narrow.append(nx_["ref"].get("t"))
+                        x = init_
+                        continue
+                    break
                 n = f.nodes[x]
+                if narrow:
+                    chk.bad(rid, f, "parser-range-narrower-than-result", f.where(r),
+                            "the parsed value passes through `%s`, which is narrower than `%s`: the upper bits are cut off on the way" % (narrow[0], f.d["ret"]), evals=2)
+                    continue
                 # an overload may delegate to its sibling of the same name: the sibling's parser then is this overload's parser
                 hops = 0
                 while n["k"] == "CallExpr" and n.get("callee") == f.name and hops < 2:
